@@ -1,4 +1,5 @@
 import BadgerModel.Driver.Loop
+import BadgerModel.Driver.Table
 /-! `bmd_table <engine>`: line-protocol driver (see CONVENTIONS.md). -/
 open Badger.Driver
 
@@ -6,4 +7,5 @@ def main (args : List String) : IO UInt32 := do
   let stdin ← IO.getStdin
   let stdout ← IO.getStdout
   match args with
+  | ["table"] => statefulLoop stdin stdout tableStep {}; return 0
   | _ => IO.eprintln "usage: bmd_table <engine>"; return 2
